@@ -94,7 +94,11 @@ def main(argv=None):
 
     # coverage thresholds: a monitor that observed too little decides nothing
     if not args.replay:
-        for key, minimum in drv.THRESHOLDS.get(args.tier, {}).items():
+        thresholds = dict(drv.THRESHOLDS.get(args.tier, {}))
+        cal = core.VERIF / "gev" / "thresholds_thorough.json"
+        if args.tier == "thorough" and cal.exists():  # measured on the unchanged tree (gev.calibrate)
+            thresholds = json.load(open(cal)).get(prop, thresholds)
+        for key, minimum in thresholds.items():
             if key.startswith("set:"):
                 got = len(m["extra_sets"].get(key[4:], ()))
             else:
@@ -107,8 +111,9 @@ def main(argv=None):
     no_evidence = bool(os.environ.get("GEV_NO_EVIDENCE"))  # self-test runs against scratch mutants: leave evidence/ alone
     replay_dir = (core.VERIF / "replays" / prop) if not no_evidence else (core.VERIF / "replays" / "_selftest" / prop)
     lines = []
-    for hk in known_hits.values():
-        lines.append(f"KNOWN-FINDING: property={prop} {hk['finding']['what']} [mechanism={hk['finding']['mechanism']} observed={hk['count']}]")
+    for f in known:  # every listed finding is reported, with how often this run observed it
+        n = known_hits.get(f["mechanism"], {}).get("count", 0)
+        lines.append(f"KNOWN-FINDING: property={prop} {f['what']} [mechanism={f['mechanism']} observed={n}]")
     for mech, v in unlisted.items():
         replay_dir.mkdir(parents=True, exist_ok=True)
         path = replay_dir / f"{core.h(mech)}.json"
